@@ -5,7 +5,7 @@
 open Model
 
 let z_of_int (i : int) : z =
-  let rec pos n = if n = 1 then XH else if n land 1 = 0 then XO (pos (n lsr 1)) else XI (pos (n lsr 1)) in
+  let rec pos n = if n = 1 then Coq_xH else if n land 1 = 0 then Coq_xO (pos (n lsr 1)) else Coq_xI (pos (n lsr 1)) in
   if i = 0 then Z0 else if i > 0 then Zpos (pos i) else Zneg (pos (-i))
 
 let z10 = z_of_int 10
@@ -21,7 +21,7 @@ let z_of_string (s : string) : z =
   done;
   if neg then Z.opp !acc else !acc
 
-let rec int_of_pos = function XH -> 1 | XO p -> 2 * int_of_pos p | XI p -> 2 * int_of_pos p + 1
+let rec int_of_pos = function Coq_xH -> 1 | Coq_xO p -> 2 * int_of_pos p | Coq_xI p -> 2 * int_of_pos p + 1
 let int_of_z = function Z0 -> 0 | Zpos p -> int_of_pos p | Zneg p -> - (int_of_pos p)
 
 let string_of_z (x : z) : string =
